@@ -182,7 +182,7 @@ func (r *Run) verifyHelpers(ld *Loaded, filter func(c *Contract) bool) {
 
 func (c *Contract) Special() bool {
 	for _, cl := range c.Ensures {
-		if cl.Label == "diff" {
+		if cl.Label == "diff" || cl.Label == "diffalt" {
 			return true
 		}
 	}
